@@ -881,7 +881,9 @@ func (w *c03World) finish(v *verifOut, st *verifStream, stimuli []c03Stim, strea
 			if b.s.Kind != "vote" {
 				continue
 			}
-			if a.s.Kind == "vote" && b.s.View == a.s.View {
+			if a.s.Kind == "vote" && b.s.View == a.s.View && b.s.Hash == a.s.Hash {
+				fail("vote:same-view-voted-again", fmt.Sprintf("replica %d (%s) signed a vote for block %d of view %d a second time (vote views must strictly increase)", w.self, w.ruleName, a.s.Hash, a.s.View))
+			} else if a.s.Kind == "vote" && b.s.View == a.s.View {
 				fail("vote:two-blocks-in-one-view", fmt.Sprintf("replica %d (%s) voted for blocks %d and %d, both of view %d", w.self, w.ruleName, a.s.Hash, b.s.Hash, a.s.View))
 			} else if a.s.Kind == "vote" && b.s.View < a.s.View {
 				fail("vote:views-not-increasing", fmt.Sprintf("replica %d (%s) voted in view %d after having voted in view %d", w.self, w.ruleName, b.s.View, a.s.View))
